@@ -37,7 +37,7 @@ ASSUMPTIONS = [
     "numba, numpy, moptipy are trusted",
     "seeded search: a clean batch is evidence, not proof",
 ]
-FAULT_KINDS = ["caller_threads_interleaved", "caller_reuses_item_matrix", "same_name_other_instance", "decode_wrong_multiset", "scribble_dest:extreme", "scribble_dest:other_packing",
+FAULT_KINDS = ["caller_threads_interleaved", "caller_reuses_item_matrix", "same_name_other_instance", "decode_wrong_multiset", "decode_call_fails", "scribble_dest:extreme", "scribble_dest:other_packing",
                "scribble_dest:blocking", "scribble_dest:random",
                "scribble_scratch:extreme", "scribble_scratch:inverted",
                "scribble_scratch:wide", "scribble_scratch:random",
@@ -141,7 +141,7 @@ def generate(rng: random.Random, batch: dict, depth: int = 0) -> dict:
 def _generate(rng: random.Random, batch: dict) -> dict:
     inst = packgen.gen_instance(rng, big=batch.get("big", False))
     if "resource" not in inst and rng.random() < 0.04:
-        inst["caller"] = {"src": rng.choice(["auto", "auto", "int64"]),
+        inst["caller"] = {"src": rng.choice(["auto", "auto", "int64", "fortran", "instance"]),
                           "reuse": rng.choice(["scale", "zero"])}
     items = packgen.resolve_items(inst)
     encoder = 1 if rng.random() < 0.4 else 2
@@ -175,6 +175,13 @@ def _generate(rng: random.Random, batch: dict) -> dict:
                 bad = [rng.randint(1, nt) * rng.choice([1, -1])
                        for _ in range(tot)]
                 ops.append({"op": "decode_bad", "x": bad})
+                continue
+            if kind == "decode_call_fails":
+                # a call that ends with an exception (the caller passes a
+                # plain array as destination, which cannot take the bin
+                # count); the encoder object goes on being used
+                x, _ = _gen_x(rng, items, prev, history)
+                ops.append({"op": "decode_fails", "x": x})
                 continue
             what, _, sub = kind.partition(":")
             if what == "scribble_scratch" and encoder == 1:
@@ -283,17 +290,23 @@ def _execute_threads(doc: dict) -> dict:
     pre = core.Preempt((os.sep + "moptipyapps" + os.sep, ))
 
     def bodies():
-        shared = cls[1](inst) if doc.get("share_encoder") else None
+        # a fresh instance object per phase (whatever is built lazily on
+        # first use is built again), shared by the threads of that phase;
+        # encoders of their own are created inside the thread
+        inst2 = packgen.build_instance(doc["inst"],
+                                       packgen.scenario_name(doc))
+        space2 = PackingSpace(inst2)
+        shared = cls[1](inst2) if doc.get("share_encoder") else None
         out = []
         for th in doc["threads"]:
-            enc = shared if shared is not None else cls[int(th["encoder"])](
-                inst)
             xs = [np.array(x, dtype=xdtype) for x in th["xs"]]
 
-            def body(enc=enc, xs=xs):
+            def body(th=th, xs=xs):
+                enc = shared if shared is not None else cls[
+                    int(th["encoder"])](inst2)
                 got = []
                 for x in xs:
-                    y = space.create()
+                    y = space2.create()
                     enc.decode(x, y)
                     got.append(([[int(v) for v in row] for row in y],
                                 int(y.n_bins)))
@@ -301,8 +314,8 @@ def _execute_threads(doc: dict) -> dict:
             out.append(body)
         return out
     points = []
-    for th, body in zip(doc["threads"], bodies()):
-        _, table = pre.profile(body)
+    for ti, th in enumerate(doc["threads"]):
+        _, table = pre.profile(bodies()[ti])
         points.append(core.Preempt.pick_points(table, th["picks"]))
     got, switches = pre.run(bodies(), points)
     core.bump(res["faults"], "caller_threads_interleaved")
@@ -450,8 +463,13 @@ def _execute_one(doc: dict, name: str) -> dict:
             rnd = random.Random(op["vals_seed"])
             # whatever arrays the encoder object keeps between calls
             # (found generically, so that renaming them changes nothing)
-            scratch = packgen.scratch_arrays(enc)
-            if not scratch:
+            # (only index arrays of the shape the unchanged tree keeps: one
+            # entry per item; anything else an implementation may keep is
+            # left alone)
+            scratch = [a for a in packgen.scratch_arrays(enc)
+                       if a.ndim == 1 and len(a) == n_items
+                       and np.issubdtype(a.dtype, np.integer)]
+            if len(scratch) < 2:
                 continue
             starts = scratch[0]
             ends = scratch[-1]
@@ -477,6 +495,16 @@ def _execute_one(doc: dict, name: str) -> dict:
             res["events"].append(["scribble_scratch", sub])
             dirty = f"scratch:{sub}"
             just_scribbled = True
+            continue
+        if kind == "decode_fails":
+            xf = np.array([int(v) for v in op["x"]], dtype=xdtype)
+            try:
+                enc.decode(xf, np.zeros((n_items, 6), dtype=inst.dtype))
+                outcome = "returned"
+            except Exception as exc:  # noqa: BLE001
+                outcome = type(exc).__name__
+            core.bump(res["faults"], "decode_call_fails")
+            res["events"].append(["decode_fails", outcome])
             continue
         if kind == "decode_bad":
             # always exactly n_items valid ids (shrunk documents included):
